@@ -59,3 +59,14 @@ package msc
 //@   set after "err = verifyHeader(native, &header, ctx)" : verified := err == nil
 //@   callsite[c29-parent-lookup] isHeaderExist#2 requires arg1 == header.ParentHash
 //@   callsite[c29-stored-only-valid] addHeader#1 requires parentOK && verified
+
+// the seal must recover to a member of the signer set in effect (clique's errUnauthorizedSigner): the in-turn /
+// out-of-turn difficulty test that follows does not imply it - an outsider is simply "out of turn"
+//@ func verifySeal
+//@   property C29
+//@   mode abstract
+//@   requires native != nil && header != nil && ctx != nil
+//@   modifies *
+//@   ghost var authorized bool = false
+//@   set after "if _, ok := snap.Signers[signer]; !ok" : authorized := has(snap.Signers, signer)
+//@   ensures[c29-authorized-signer] err == nil ==> authorized
